@@ -7,7 +7,7 @@ META = dict(
     functions=["fzf.(*Reader).feed", "fzf.(*ChunkList).Push", "fzf.(*ChunkList).Snapshot", "fzf.CountItems", "fzf.(*Chunk).push", "fzf.(*ChunkCache).retire"],
     bounds=dict(quick="<=3 reads of <=3 bytes over {delim,a,\\r}; <=6 chunk-list operations, tail in {0,2}",
                 thorough="<=4 reads; <=8 operations, tail in {0,1,2,4}"),
-    outside=["full-size buffers (parametricity argument, DESIGN §2.4)", "the event poller", "Run's wiring of reader to chunk list", "the item-builder closures of Run (not lifted yet)"],
+    outside=["full-size buffers (parametricity argument, DESIGN §2.4)", "the event poller", "Run's wiring of reader to chunk list", "--ansi processing inside the item builders"],
     models=["io.Reader stub with the *os.File contract (data never together with an error)", "sync.Mutex no-op (critical sections atomic)", "bytes.IndexByte model"],
     assumptions=["readerBufferSize=3, readerSlabSize=6, chunkSize=3 (only these initialisers rewritten in an overlay copy of constants.go)"],
 )
@@ -25,4 +25,7 @@ def suites(tier):
     for tail in ((0, 2) if q else (0, 1, 2, 4)):
         cfg = dict(tail=tail, ops=6 if q else 8)
         jobs.append(dict(id=jid("chunks", cfg), func="zzH_C06_chunks", cfg=cfg))
+    for wn, field in ((0, 1), (1, 1), (1, 2)):
+        cfg = dict(withnth=wn, field=field, records=3, nmax=2 if q else 3, headers=2)
+        jobs.append(dict(id=jid("build", cfg), func="zzH_C06_build", cfg=cfg))
     return [src_suite("src", jobs, readerBufferSize=3, readerSlabSize=6, chunkSize=3)]
